@@ -14,7 +14,7 @@ import (
 func init() {
 	register(&Prop{
 		ID:          "C12",
-		Explanation: "Decides the shape of the refresh protocol (not its schedules): the provider refresh function value is called only in refreshSession, which is called only from refreshSessionIfNeeded; that call site is reached only on paths where ObtainLock returned nil, then SessionStore.Load returned a non-nil session without error, the request's session object was overwritten from it, and a needsRefresh evaluated after the overwrite was true; on every path on which the lock was obtained the deferred function that releases it has been registered, and that function calls ReleaseLock on every path with a non-nil session; once the first needsRefresh is true the function returns nil only because the post-reload needsRefresh was false, or returns validateSession's verdict evaluated after the refresh attempt; validateSession returns nil only if the session is not expired and the provider validator accepted it; getValidatedSession returns a nil session with every error and the loader calls store.Clear for every error other than ErrNoCookie; Manager.Save mints a new ticket only when the request's ticket could not be decoded and otherwise saves under the request's ticket; the redis lock maps redislock's sentinels to the session-lock sentinels the middleware's retry loop tests.",
+		Explanation: "Decides the shape of the refresh protocol (not its schedules): the provider refresh function value is called only in refreshSession, which is called only from refreshSessionIfNeeded; that call site is reached only on paths where ObtainLock returned nil, then SessionStore.Load returned a non-nil session without error, the request's session object was overwritten from it, and a needsRefresh evaluated after the overwrite was true; on every path on which the lock was obtained the deferred function that releases it has been registered, and that function calls ReleaseLock on every path with a non-nil session; once the first needsRefresh is true the function returns nil only because the post-reload needsRefresh was false, or returns validateSession's verdict evaluated after the refresh attempt; validateSession returns nil only if the session is not expired and the provider validator accepted it; getValidatedSession returns a nil session with every error and the loader calls store.Clear for every error other than ErrNoCookie; Manager.Save mints a new ticket only when the request's ticket could not be decoded and otherwise saves under the request's ticket; the redis lock maps redislock's sentinels to the session-lock sentinels the middleware's retry loop tests. Added during the build: Manager.Clear expires the cookie on every path (R8, shared with C11.R2); every provider redeemRefreshToken stores access token, issue time, expiry and — when the response carries one — the refresh token on every success path (R9).",
 		NotDecided:  "'exactly one refresh' under interleavings, lock expiry versus identity-provider latency, token rotation at the provider: schedules and histories are not explored.",
 		Run:         runC12,
 	})
@@ -55,6 +55,8 @@ func runC12(c *Ctx) {
 	r.Rule("R4-stale-path-result", "after a true first needsRefresh: nil only via fresh-enough reload or validateSession's verdict; validateSession nil => !IsExpired && validator true", 4)
 	r.Rule("R5-loader-clears", "getValidatedSession returns nil session with every error; loader clears the store session for errors other than ErrNoCookie", 3)
 	r.Rule("R6-ticket-reuse", "Manager.Save mints a new ticket only when the request ticket cannot be decoded", 2)
+	r.Rule("R8-clear-expires-cookie", "Manager.Clear, which ends an unrefreshable session, expires the cookie on every path even when the store delete fails (shared with C11.R2)", 9)
+	r.Rule("R9-refresh-adopts-tokens", "every provider redeemRefreshToken stores access token, issue time, expiry and (when the response carries one) the refresh token on every success path", 3)
 	r.Rule("R7-lock-sentinels", "redis lock maps redislock sentinels to the session-lock sentinels the retry loop tests", 6)
 
 	rule := "R1-single-refresh-site"
@@ -170,6 +172,8 @@ func runC12(c *Ctx) {
 	c.checkStaleResult("R4-stale-path-result", a)
 
 	c.checkLoaderClears("R5-loader-clears", a)
+	runManagerClearRule(c, "R8-clear-expires-cookie")
+	runC12R9(c, "R9-refresh-adopts-tokens")
 
 	// ---- R6 ---------------------------------------------------------------------------------
 	rule = "R6-ticket-reuse"
@@ -456,4 +460,98 @@ func (c *Ctx) checkLoaderClears(rule string, a *c12Anchors) {
 		})
 	}
 
+}
+
+// runC12R9: a successful provider refresh adopts everything the token response carried: the access
+// token, the refresh token when the response has one (rotation), a fresh issue time and the expiry.
+func runC12R9(c *Ctx, rule string) {
+	sessT := c.P.Named("pkg/apis/sessions.SessionState")
+	if sessT == nil {
+		c.R.Unknown(rule, "anchor:SessionState", "-", "type not found")
+		return
+	}
+	n := 0
+	for _, fn := range c.P.ModFns {
+		if fn.Name() != "redeemRefreshToken" || prog.Short(prog.FnPkg(fn).Path()) != "providers" || len(fn.Params) < 3 {
+			continue
+		}
+		sp := fn.Params[2]
+		if pt, ok := sp.Type().(*types.Pointer); !ok || !types.Identical(pt.Elem(), sessT) {
+			continue
+		}
+		n++
+		// does the function read a refresh token from anything but the session it refreshes?
+		readsNew := false
+		for _, b := range fn.Blocks {
+			for _, in := range b.Instrs {
+				var x ssa.Value
+				var f *types.Var
+				switch v := in.(type) {
+				case *ssa.FieldAddr:
+					x, f = v.X, walk.FieldOf(v.X.Type(), v.Field)
+				case *ssa.Field:
+					x, f = v.X, walk.FieldOf(v.X.Type(), v.Field)
+				}
+				if f == nil || f.Name() != "RefreshToken" || x == ssa.Value(sp) {
+					continue
+				}
+				// a composite literal being filled (oauth2.Token{RefreshToken: s.RefreshToken}) is a write, not a read
+				isWrite := false
+				if fa, ok := in.(*ssa.FieldAddr); ok {
+					for _, ref := range *fa.Referrers() {
+						if st, ok := ref.(*ssa.Store); ok && st.Addr == ssa.Value(fa) {
+							isWrite = true
+						}
+					}
+				}
+				if !isWrite {
+					readsNew = true
+				}
+			}
+		}
+		fn := fn
+		c.Walk(rule, fn, func(p *walk.Path) {
+			ret, ok := p.ReturnDV(0)
+			if !ok || !DefinitelyNil(p, ret, p.End()) {
+				return
+			}
+			stored := map[string]bool{}
+			for _, s := range p.Steps {
+				switch v := s.In.(type) {
+				case *ssa.Store:
+					if fa, ok := p.Resolve(p.StepOp(v.Addr, s)).V.(*ssa.FieldAddr); ok && p.Resolve(p.StepOp(fa.X, s)).V == ssa.Value(sp) {
+						stored[walk.FieldOf(fa.X.Type(), fa.Field).Name()] = true
+					}
+				case *ssa.Call:
+					if sc := v.Call.StaticCallee(); sc != nil && len(v.Call.Args) > 0 && p.Resolve(p.StepOp(v.Call.Args[0], s)).V == ssa.Value(sp) {
+						switch sc.Name() {
+						case "CreatedAtNow":
+							stored["CreatedAt"] = true
+						case "SetExpiresOn", "ExpiresIn":
+							stored["ExpiresOn"] = true
+						}
+					}
+				}
+			}
+			need := []string{"AccessToken", "CreatedAt", "ExpiresOn"}
+			if readsNew {
+				need = append(need, "RefreshToken")
+			}
+			var missing []string
+			for _, f := range need {
+				if !stored[f] {
+					missing = append(missing, f)
+				}
+			}
+			key := "adopts|" + fnKey(fn)
+			if len(missing) == 0 {
+				c.ok(rule, key, p.Exit, "success path stores "+strings.Join(need, ", ")+" into the refreshed session")
+			} else {
+				c.bad(rule, key, p.Exit, "a successful refresh returns without storing "+strings.Join(missing, ", ")+" into the session: later requests do not carry what the identity provider just issued (a rotated refresh token is lost, the next refresh replays the spent one)", p, p.End())
+			}
+		})
+	}
+	if n == 0 {
+		c.R.Unknown(rule, "adopts|none", "-", "no provider redeemRefreshToken found")
+	}
 }
